@@ -514,6 +514,23 @@ def error_stream(ctx: Ctx, exe):
         ctx.count("oracle:errors")
         if line != "reported":
             ctx.oracle_fail("error-not-reported", {"file": t}, f"{'missing file' if t is None else repr(t)}: {line}; stderr {err[:200]!r}")
+    # several files in one invocation (implementation only): a file that cannot be converted is reported by one line and a
+    # non-zero exit status wherever it stands in the list
+    good = ctx.tmp / "good.csv"
+    with open(good, "w", encoding="utf-8", newline="") as f:
+        f.write("a,b\r\n1,2\r\n")
+    bad = ctx.tmp / "bad2.csv"
+    with open(bad, "w", encoding="utf-8", newline="") as f:
+        f.write('x,y\r\n"unterminated')
+    missing = ctx.tmp / "does-not-exist.csv"
+    for order in ([bad, good], [good, bad], [missing, good], [good, missing], [good, bad, good]):
+        for extra in ([], ["--no-header"]):
+            code, out, err, exc = run_tool(c2n, ["csv2numbers", *extra, *map(str, order)])
+            names = [p.name for p in order]
+            ctx.count("oracle:errors")
+            if exc is not None or code == 0 or len(err.splitlines()) != 1:
+                ctx.oracle_fail("error-not-reported", {"files": names, "flags": extra},
+                                f"csv2numbers {' '.join(extra + names)}: exit {code}, {len(err.splitlines())} line(s) on stderr, escaped {type(exc).__name__ if exc else None}")
     if exe:
         ctx.compare("main-errors", cases, reqs, outs, exe, nontrivial=lambda c, o: o == "reported")
 
@@ -598,6 +615,15 @@ def replay(path: str) -> int:
                 code, out, err, exc = run_tool(c2n, ["csv2numbers", str(src), "-o", str(Path(t) / "o.numbers")])
                 line = impl_main_line({"code": code, "stderr": err, "exc": exc})
                 fails = [] if line == "reported" else [("error-not-reported", line)]
+            elif "files" in case:
+                c2n, _ = tools()
+                texts = {"good.csv": "a,b\r\n1,2\r\n", "bad2.csv": 'x,y\r\n"unterminated'}
+                for nm, tx in texts.items():
+                    with open(Path(t) / nm, "w", encoding="utf-8", newline="") as f:
+                        f.write(tx)
+                code, out, err, exc = run_tool(c2n, ["csv2numbers", *case.get("flags", []), *[str(Path(t) / n) for n in case["files"]]])
+                bad = exc is not None or code == 0 or len(err.splitlines()) != 1
+                fails = [("error-not-reported", f"exit {code}, {len(err.splitlines())} stderr line(s)")] if bad else []
             else:
                 fails = []
         known_open = {k["signature"] for k in common.load_known() if k["property"] == d.get("property") and k.get("status") == "open"}
